@@ -124,6 +124,18 @@ theorem c04_offerer_on_schedule (n n' : Net) (es : List NEvent) (h0 : FreshTime 
   obtain ⟨esA, hA⟩ := c04_side_a_run n n' es h hc
   exact c10_offer_step_on_schedule n.a n'.a esA h0 hA i k x hx hn q rest hhead
 
+/-- the OFFERER (side A) in any composed execution, as a state invariant: an instance in its cyclic phase has sent its last
+multicast offer at most one cyclic period ago - whatever the network and the peer did.  This is the offerer's half of the
+convergence bound: a watcher that receives these offers is never more than one period behind; the watcher's half is
+`c04_watcher_stored_is_live` (what it has stored was offered at most one TTL ago) -/
+theorem c04_offerer_last_offer_is_fresh (n n' : Net) (es : List NEvent) (h0 : FreshTime n.a) (h : netRunAll n es = some n')
+    (hc : ∀ e ∈ es, isCrashA e = false)
+    (i k : Nat) (x : Instance) (hx : n'.a.getInst i = some x) (hn : x.task = some k)
+    (t : TaskSt) (ht : n'.a.getTask (.offer i, k) = some t) (hpc : t.pc = .cyclic) :
+    ∃ A, anchor i n'.a.offLog = some A ∧ n'.a.loop.now ≤ A + n'.a.tm.cyclicOfferDelay := by
+  obtain ⟨esA, hA⟩ := c04_side_a_run n n' es h hc
+  exact c10_last_offer_is_fresh n.a n'.a esA h0 hA i k x hx hn t ht hpc
+
 /-- the WATCHER (side B) in any composed execution: a service it has stored with a finite TTL is within that TTL of the most
 recent offer it received for it -/
 theorem c04_watcher_stored_is_live (n n' : Net) (es : List NEvent) (h0 : n.b.found = []) (hl : n.b.storeLog = [])
